@@ -49,3 +49,66 @@ def replay_auto(p):
         return {"violated": bad or not name_ok, "detail": f"remembered {prev}, outcomes {outs}: decoded by {got} (expected {exp}), remembered afterwards {newp}, name {d.previous_success_decoder}"}
     finally:
         autodecoder.AutoDecoder.payload_decoder_functions = orig; dlde.decode_p1_readout = orig_r
+
+def replay_reject(p):
+    """a solver model of a rejection lemma: the other meter's real decoder on the instance"""
+    import importlib, random
+    from props.cosem_rt import ConcV, all_cases
+    w = p["witness"]; build = all_cases().get(w.get("layout"))
+    if build is None: return {"violated": False, "inconclusive": True, "detail": f"unknown layout {w.get('layout')}"}
+    V = ConcV(random.Random(3), w.get("fields")); module, func, octs, exp = build(V)
+    m = importlib.import_module(w["module"])
+    try: r = getattr(m, w["func"])(bytes(octs))
+    except (construct.ConstructError, ValueError): return {"violated": False, "detail": "refused"}
+    except Exception as ex: return {"violated": True, "detail": {"input": bytes(octs).hex(), "what": f"{w['module']}.{w['func']} raised {ex!r}"}}
+    return {"violated": True, "detail": {"layout": w.get("layout"), "input": bytes(octs).hex(), "what": f"{w['module']}.{w['func']} accepts it and returns {str(r)[:120]}"}}
+
+def genuine_fresh(p):
+    """bounded: genuine lists of every documented layout (boundary-biased register values, plus registers made of the octets that matter to a text parser) given to a
+    FRESH AutoDecoder and to one that has decoded the same layout before: decoded by the meter's own decoder, with the values of C07-C09"""
+    import random, importlib
+    from props.cosem_rt import ConcV, all_cases, run_case
+    rnd = random.Random(p.get("seed", 0)); n = p.get("n", 60); ev = 0; bad = []
+    own_name = {("han.aidon", "decode_frame_content"): "Aidon_frame", ("han.kaifa", "decode_frame_content"): "Kaifa_frame", ("han.kamstrup", "decode_frame_content"): "Kamstrup_frame",
+                ("han.aidon", "decode_notification_body"): "Aidon_notification_body", ("han.kaifa", "decode_notification_body"): "Kaifa_notification_body", ("han.kamstrup", "decode_notification_body"): "Kamstrup_notification_body"}
+    texty = [0x0A, 0x28, 0x29, 0x0D, 0x2A, 0x31, 0x2E, 0x0B, 0x0C, 0x00, 0x21, 0x2F]
+    class TextyV(ConcV):
+        """register octets drawn from line separators, parentheses, digits and dots: what could make a binary list look like P1 text"""
+        def integer(s, name, nbytes, signed):
+            if name not in s.given and not name.endswith("_scaler") and s.rnd.random() < 0.8: s.given[name] = [s.rnd.choice(texty) for _ in range(nbytes)]
+            return ConcV.integer(s, name, nbytes, signed)
+    crafted = [0x000A2829, 0x0A282900, 0x0A280029, 0x0D282929, 0x0C280029]          # "<line separator>(..)" inside one register
+    class CraftedV(ConcV):
+        """every 4-octet register takes the crafted value `val`, everything else small and ASCII"""
+        def __init__(s, rnd_, val): ConcV.__init__(s, rnd_); s.val = val
+        def integer(s, name, nbytes, signed):
+            if name not in s.given and not name.endswith("_scaler"): s.given[name] = list(s.val.to_bytes(4, "big"))[-nbytes:] if nbytes == 4 else [0] * (nbytes - 1) + [0x29]
+            return ConcV.integer(s, name, nbytes, signed)
+    for label, build in all_cases().items():
+        for it in range(n + len(crafted)):
+            V = CraftedV(rnd, crafted[it]) if it < len(crafted) else (TextyV if it % 2 else ConcV)(rnd); module, func, octs, exp = build(V); payload = bytes(octs); ev += 1
+            if run_case(module, func, octs, exp): continue          # the layout's own decoder is C07-C09's business
+            want = importlib.import_module(module); want = getattr(want, func)(payload)
+            for hist in ("fresh", "same layout before"):
+                d = autodecoder.AutoDecoder()
+                if hist != "fresh":
+                    V2 = ConcV(rnd); _, _, o2, _ = build(V2); d.decode_message_payload(bytes(o2))
+                got = d.decode_message_payload(payload)
+                if got != want or d.previous_success_decoder != own_name[(module, func)]:
+                    bad.append({"layout": label, "history": hist, "payload": payload.hex(), "decoded_by": d.previous_success_decoder, "result": str(got)[:160], "own_decoder": own_name[(module, func)], "own_result": str(want)[:160]}); break
+            if bad: break
+        if bad: break
+    return {"name": "genuine lists on a fresh AutoDecoder and after the same layout (decoded by the meter's own decoder)", "bound": f"{n} instances x every documented layout, boundary-biased and text-like register octets", "evaluations": ev,
+            "distinct_nontrivial": ev, "violations": bad[:2]}
+
+def replay_p1text(p):
+    """a failed clause of the P1 content decoder's contract as seen from C12: look for a binary list (or any control-octet content) that the real decoder accepts"""
+    from han import dlde
+    for hx in ("020106000a2829", "0201060c280029", "01010a2829", "0a2829"):
+        b = bytes.fromhex(hx)
+        try: r = dlde.decode_p1_readout_content(b)
+        except ValueError: continue
+        return {"violated": True, "detail": {"content": hx, "what": f"decode_p1_readout_content accepts binary content and returns {r!r}"}}
+    r = genuine_fresh({"seed": 2, "n": 60})
+    if r["violations"]: return {"violated": True, "detail": r["violations"][0], "found_by": "bounded search"}
+    return {"violated": False, "inconclusive": True, "detail": "no binary content accepted by decode_p1_readout_content"}
